@@ -259,7 +259,9 @@ fn eval_stmt(
             let iter_val = eval_expr(context, scopes, iter)
                     .context(EvalForIterFailed)?;
 
+            let (_, (iter_line, iter_col)) = iter;
             let pairs = value_to_pairs(&iter_val.v)
+                    .context(AtLoc{line: *iter_line, col: *iter_col})
                     .context(ConvertForIterToPairsFailed)?;
 
             for (key, value) in pairs {
